@@ -193,6 +193,14 @@ func (rt *scenRT) body(t *f1t.T) {
 	} else {
 		behave(t, plan.Behav)
 	}
+	if plan.LateHelperNs > 0 {
+		// a helper goroutine the body forgot: it reports an error on the handle after its iteration is over
+		d := plan.LateHelperNs
+		go func() {
+			time.Sleep(time.Duration(d))
+			t.Errorf("late report from a helper goroutine of an iteration that is over")
+		}()
+	}
 	if plan.After > 0 {
 		time.Sleep(time.Duration(plan.After))
 	}
